@@ -271,9 +271,111 @@ def run_sm(pid, tier, seed, replay, t0):
     return rc
 
 
+FN_PROPS = {
+    "C20": {"title": "versions parse, print and order numerically", "module": "MCVersion", "cmd": "ver",
+            "cfg": {"quick": ["version5.cfg"], "thorough": ["version6.cfg"]}, "prefixes": ["VEC", "CMP"],
+            "extra_vectors": "ver_extra",
+            "nontrivial": lambda v: v.get("v") in ("ok", "unconstrained") or "a" in v,
+            "rule": "every token string over {0,1,4,9,'.','+','-',' ','a'} up to the length bound and every pair of a "
+                    "boundary version set, enumerated by TLC from Version.tla with the model's verdict, canonical form and "
+                    "order; non-trivial = accepted / unconstrained strings and ordering pairs"},
+}
+
+FN_PROPS["C19"] = {
+    "title": "times survive persistence and compare consistently", "module": "TimeConv", "cmd": "time",
+    "cfg": {"quick": ["timeconv.cfg"], "thorough": ["timeconv.cfg"]}, "prefixes": ["TV"],
+    "nontrivial": lambda v: True,
+    "rule": "every microsecond count <<anchor, offset>> with anchor in {i64::MIN, about -10^15, 0, about +1.7*10^15, i64::MAX} "
+            "and offset in -3..3, every instant around them at sub-microsecond positions {0,1,500,999} ns, and every "
+            "combination of wall-only / monotonic-only / complete times over a small grid with every small duration, "
+            "enumerated by TLC from TimeConv.tla with the model's result; the MID anchors are concretised from VERIF_SEED"}
+
+ASSUME_FN = ["The TLA+ reference model is the property's definition of the right output; inputs the property does not "
+             "settle are marked unconstrained in the model and only 'does not panic' is required there."]
+
+
+def tlc_vectors(out, prefixes):
+    res = []
+    for m in re.finditer(r'^"(%s) (.*)"$' % "|".join(prefixes), out, re.M):
+        v = json.loads(json.loads('"' + m.group(2) + '"'))
+        v["_"] = m.group(1)
+        res.append(v)
+    return res
+
+
+def ver_extra(rng, tier):
+    """Longer strings than the exhaustive bound, with the verdict computed by... nobody: these are run for 'no panic'
+    only (marked unconstrained)."""
+    out = []
+    toks = list("0149.+- a") + ["4294967295", "4294967296", "00000000001", "\u00e9", "\u0663"]
+    for _ in range(2000 if tier == "quick" else 20000):
+        n = rng.randint(7, 14)
+        out.append({"s": "".join(rng.choice(toks) for _ in range(n)), "v": "unconstrained", "p": "", "np": 0, "_": "VEC"})
+    return out
+
+
+def run_fn(pid, tier, seed, replay, t0):
+    spec = FN_PROPS[pid]
+    wd = vlib.workdir("fn." + pid)
+    vlib.build_harness()
+    stats = {"states": 0, "transitions": 0, "runs": []}
+    viols = []
+    if replay:
+        vecs = [json.loads(l) for l in open(replay) if l.strip()]
+        vecs = [v.get("vec", v) for v in vecs]
+    else:
+        vecs = []
+        for cfg in spec["cfg"][tier]:
+            rc, out, st = vlib.tlc(spec["module"], cfg, workers=8, name="fn.%s.%s" % (pid, cfg), timeout=3000)
+            if rc == 12 or "is violated" in out:
+                i = out.find("is violated")
+                rp = vlib.write_replay(pid, "model.%s.trace.txt" % cfg, out[max(0, i - 300):][:100000])
+                viols.append({"key": "%s:model-law:%s" % (pid, cfg), "replay": rp,
+                              "what": "a law of the reference model itself fails (TLC trace in the replay file)"})
+            elif rc != 0:
+                raise vlib.ToolError("TLC failed on %s: %s" % (cfg, out[-1500:]))
+            vs = tlc_vectors(out, spec["prefixes"])
+            vecs.extend(vs)
+            stats["states"] += st.get("states", 0)
+            stats["transitions"] += st.get("transitions", 0)
+            stats["runs"].append({"cfg": cfg, "states": st.get("states", 0), "vectors": len(vs), "wall_s": st.get("wall_s")})
+        if spec.get("extra_vectors"):
+            vecs.extend(globals()[spec["extra_vectors"]](random.Random(seed * 1000 + int(pid[1:])), tier))
+    vpath = os.path.join(wd, "vectors.ndjson")
+    with open(vpath, "w") as f:
+        for v in vecs:
+            f.write(json.dumps(v) + "\n")
+    opath = os.path.join(wd, "out.ndjson")
+    p = vlib.run_vh([spec["cmd"], vpath, opath])
+    if p.returncode != 0:
+        raise vlib.ToolError("harness failed: " + p.stderr[-2000:])
+    summary = None
+    for line in open(opath):
+        r = json.loads(line)
+        if "summary" in r:
+            summary = r["summary"]
+            continue
+        key = "%s:%s:%s" % (pid, r["bad"], json.dumps(r["vec"], sort_keys=True)[:200])
+        rp = vlib.write_replay(pid, "vec-%d.ndjson" % len(viols), json.dumps(r["vec"]) + "\n")
+        viols.append({"key": key, "replay": rp, "what": "%s: input %s, implementation gave %s" % (
+            r["bad"], json.dumps(r["vec"])[:300], json.dumps(r.get("got"))[:200])})
+    if summary is None or summary["n"] != len(vecs):
+        raise vlib.ToolError("harness did not process all vectors")
+    rc = vlib.report(pid, viols)
+    nt = set(json.dumps(v, sort_keys=True) for v in vecs if spec["nontrivial"](v))
+    cov = {"states": stats["states"], "transitions": stats["transitions"], "model_runs": stats["runs"],
+           "traces_validated_against_impl": len(vecs), "evaluations": len(vecs), "distinct_nontrivial": len(nt),
+           "rule": spec["rule"], "samples": vecs[:3] + vecs[len(vecs) // 2: len(vecs) // 2 + 2],
+           "checker_cmd": "tlc %s.tla ; vh %s" % (spec["module"], spec["cmd"]), "exhaustive": True}
+    vlib.write_evidence(pid, tier, seed, "model_checking", cov, ASSUME_FN, t0, len(viols))
+    return rc
+
+
 def run(pid, tier, seed, replay, t0):
     if pid in SM_PROPS:
         return run_sm(pid, tier, seed, replay, t0)
+    if pid in FN_PROPS:
+        return run_fn(pid, tier, seed, replay, t0)
     raise vlib.ToolError("no check registered for " + pid)
 
 
@@ -295,5 +397,16 @@ def describe(pid):
                           "over seeded environment scripts covering the property's quantifier (%s)." % SM_PROPS[pid][0],
             "level_note": "Trusted: TLC, the harness doubles and projection (independent signer / encoder / URL splitter), "
                           "embedder contracts as documented. Bounded/sampled exploration, not a proof.",
+        }
+    if pid in FN_PROPS:
+        return {
+            "engine": "tlc+harness",
+            "design_ref": "DESIGN.md section 6 (%s)" % pid,
+            "technique": "TLA+ reference model of the function (transcription), enumerated exhaustively by TLC within bounds; "
+                         "every enumerated input is run through the real code and compared with the model's output",
+            "level_text": "Model-based: %s. The model is the property's definition of the right output; TLC also checks the "
+                          "model's own laws as invariants. Every enumerated input is executed on the real implementation "
+                          "and any disagreement (or panic) is a violation." % FN_PROPS[pid]["rule"],
+            "level_note": "Trusted: TLC, the harness's comparison code. Exhaustive only within the stated bounds.",
         }
     return None
